@@ -203,7 +203,7 @@ PROPS = {
                 "window; non-trivial = a series of >=2 labels aggregating >=2 samples at a step, or two result label sets with "
                 "equal concatenations; distinct by case hash",
         "assumptions": ["64-bit hash collisions between unrelated label sets are not reachable by search; only structural collisions are"],
-        "quick": [rapid("TestC10", 800)],
+        "quick": [rapid("TestC10", 1500)],
         "thorough": [rapid("TestC10", 40000, shards=16, timeout=3000)],
     },
     "C17": {
